@@ -224,6 +224,7 @@ def run(ctx):
     if h:
         cases = gen_cases(ctx)
         res = vlib.differential(ctx, 'net_read', h, cases,
+                                pred=lambda c, o: 'chk_read %s %s' % (c.split()[2], ','.join(lines_only(o)) or '-'),
                                 nontrivial=lambda c, o: 'L' in o,
                                 corr_name='model QsmtpModel.Netio.netRead vs lib/netio.c:net_read')
         fails = chunk_independence(ctx, res)
